@@ -157,7 +157,7 @@ class Conv:
         raise Unsupported('statement kind ' + k)
 
 
-def generate(cache_dir=None):
+def generate(cache_dir=None, known=()):
     fns = functions_with_locks()
     out = ['(* GENERATED by translators/tr_locks.py -- do not edit *)', 'From Coq Require Import List.', 'From SV Require Import LockFlow.', 'Import ListNotations.', '']
     meta = []; defs = []
@@ -182,7 +182,9 @@ def generate(cache_dir=None):
     for i, m in enumerate(ok):
         out.append('(* %d  %s : %s   mutexes %s *)' % (i, m['src'], m['name'], {v: k for k, v in m['mutexes'].items()}))
         out.append('Definition fn_%d : stmt := %s.' % (i, m['skeleton']))
-    out.append('Definition lock_functions : list stmt := [%s].' % '; '.join('fn_%d' % i for i in range(len(ok))))
+    out.append('Definition lock_functions : list (nat * stmt) := [%s].' % '; '.join('(%d, fn_%d)' % (i, i) for i in range(len(ok))))
+    out.append('(* functions whose violation of the discipline is a recorded known finding (known_findings.json), by index *)')
+    out.append('Definition lock_findings : list nat := [%s].' % '; '.join(str(i) for i, m in enumerate(ok) if m['name'] in known))
     return '\n'.join(out) + '\n', dict(functions=meta, analysed=[m['name'] for m in ok])
 
 
